@@ -6,7 +6,9 @@ use crate::ast::*;
 use crate::rng::Rng;
 use liquid_core::model::{Object, Value};
 
-pub const NAMES: [&str; 4] = ["a", "b", "c", "x"];
+/// the shared name alphabet; `size` is also the synthetic member every object and array answers, so a
+/// variable of that name probes every lookup path that confuses "bound in this scope" with "resolves on this value"
+pub const NAMES: [&str; 5] = ["a", "b", "c", "x", "size"];
 
 pub struct Gen {
     pub rng: Rng,
